@@ -120,13 +120,22 @@ func (w *World) ApplyAPI(call string) error {
 			res = "error: " + err.Error()
 		}
 	case "view.open":
+		var pend []string
+		for _, t := range w.Mgr.VerifDump().Tags {
+			pend = append(pend, fmt.Sprintf("%s:%v", t.Name, t.Uncertain))
+		}
 		v := w.Mgr.GetView()
-		hv := &HeldView{Name: arg, View: &v, OpenedAt: len(w.Events)}
+		hv := &HeldView{Name: arg, View: &v, OpenedAt: len(w.Events), PendingAtOpen: strings.Join(pend, " ")}
 		d, err := ViewDigest(hv.View, false)
 		if err != nil {
 			res = "error: " + err.Error()
 		}
 		hv.Recorded = d
+		if t, err := ViewTags(hv.View); err == nil {
+			hv.RecordedTags = t
+		} else {
+			hv.RecordedTags = "error: " + err.Error()
+		}
 		w.Views = append(w.Views, hv)
 	case "view.release":
 		for _, hv := range w.Views {
